@@ -714,6 +714,13 @@ func c18Container(c *Ctx) {
 			}
 			// only reflect.Value-typed or interface-typed config-ish stores matter
 			if p, n := NamedOf(st.Val.Type()); p == "reflect" && n == "Value" {
+				// the package initialiser runs before any plugin is created: what it stores (the zero Value of the
+				// error type, say) is not a produced config
+				if fn.Name() == "init" && fn.Parent() == nil && fn.Signature.Recv() == nil && len(fn.Params) == 0 {
+					if cl, _ := CallOfValue(st.Val); cl != nil && MatchCC(&cl.Call, Spec{"reflect", "", "Zero"}, Spec{"reflect", "", "ValueOf"}, Spec{"reflect", "", "TypeOf"}) {
+						return
+					}
+				}
 				nStores++
 				c.Bad("O18.3", fk(fn)+":stores-a-reflect-value", st.Pos(), "a reflect.Value is stored into "+tgt+": a produced config must not be cached")
 			}
